@@ -94,6 +94,9 @@ func run(c *lib.Ctx) error {
 		defer func() { st.Close(); os.Remove(storex.DBPath(scratch, 1_000_000+h)) }()
 		hist[h] = randomHistory(c, rng, st, steps)
 	})
+	if hung.Load() {
+		return lib.Infra("a cursor move of the real code did not return within 20s in a random history")
+	}
 	if firstErr != nil {
 		return firstErr
 	}
@@ -197,6 +200,10 @@ func run(c *lib.Ctx) error {
 						return
 					}
 					replayBehaviour(c, rs.Store, beh)
+					if hung.Load() {
+						fail(lib.Infra("a cursor move of the real code did not return within 20s while replaying %s", lines[i]))
+						return
+					}
 					n++
 					if i < 2 && gi == 0 {
 						c.Sample(beh)
@@ -281,6 +288,10 @@ func replayBehaviour(c *lib.Ctx, db histDB, beh []Step) bool {
 		}
 		ev, err := w.do(s.Event())
 		c.AddEvals(1)
+		if err == errHang {
+			hung.Store(true)
+			return false
+		}
 		if err != nil {
 			c.Reject("walk-error:"+s.A, fmt.Sprintf("step %d %s failed: %v", k+1, s.A, err), beh[:k+1])
 			return false
@@ -326,6 +337,9 @@ func replay(c *lib.Ctx, dir, scratch string) error {
 	}
 	defer st.Close()
 	out, err := rerun(st, evs)
+	if err == errHang {
+		return lib.Infra("%v", err)
+	}
 	if err != nil {
 		c.Reject("walk-error:replay", err.Error(), evs)
 		return nil
